@@ -80,11 +80,11 @@ func tagsHarness(nf int, lens []int, nkinds int) {
 	names := []string{"A", "B", "C"}
 	specs := make([]vrt.FieldSpec, nf)
 	type exp struct {
-		idx          int
-		opt          string
-		skip, ok     bool
-		missing      bool
-		kind         fieldKind
+		idx      int
+		opt      string
+		skip, ok bool
+		missing  bool
+		kind     fieldKind
 	}
 	exps := make([]exp, nf)
 	for i := 0; i < nf; i++ {
@@ -188,6 +188,12 @@ type badIface struct {
 type badPtrFloats struct {
 	A []*float64 `plenc:"1"`
 }
+type badPtrPtrFloats struct {
+	A []**float64 `plenc:"1"`
+}
+type badPtrFloat32s struct {
+	A map[string][]*float32 `plenc:"1"`
+}
 type badSliceSliceStr struct {
 	A [][]string `plenc:"1"`
 }
@@ -261,7 +267,7 @@ func mustReject(p *plenc.Plenc, v interface{}) {
 func H08u_Kinds() {
 	p := new(plenc.Plenc)
 	p.RegisterDefaultCodecs()
-	switch vrt.Choice("type", 19) {
+	switch vrt.Choice("type", 21) {
 	case 0:
 		mustReject(p, badC64{})
 	case 1:
@@ -300,6 +306,10 @@ func H08u_Kinds() {
 		mustReject(p, badDup{})
 	case 18:
 		mustReject(p, badOpt{})
+	case 19:
+		mustRejectOrWork(p, &badPtrPtrFloats{})
+	case 20:
+		mustReject(p, badPtrFloat32s{})
 	}
 }
 
@@ -362,4 +372,22 @@ func H08u_Skipped() {
 	out.C = pc
 	vrt.Assert("unmarshal ok", p.Unmarshal(data, &out) == nil)
 	vrt.Assert("skipped fields are never written", vrt.And(out.Unexported() == pa, out.C == pc))
+}
+
+// mustRejectOrWork: the definition is either rejected, or the codec handed
+// out really works on a zero and on a populated value (accepted => usable).
+func mustRejectOrWork(p *plenc.Plenc, v *badPtrPtrFloats) {
+	_, err := p.CodecForType(reflect.TypeOf(*v))
+	if err != nil {
+		vrt.Cover("rejected")
+		return
+	}
+	f := 1.5
+	pf := &f
+	v.A = []**float64{&pf}
+	data, err := p.Marshal(nil, v)
+	vrt.Assert("accepted definition marshals", err == nil)
+	var out badPtrPtrFloats
+	vrt.Assert("accepted definition unmarshals", p.Unmarshal(data, &out) == nil)
+	vrt.Assert("accepted definition round-trips", len(out.A) == 1 && out.A[0] != nil && *out.A[0] != nil && **out.A[0] == 1.5)
 }
